@@ -541,7 +541,13 @@ where
         let mut failure = None;
         for case in (self.enumerate)(p.tier) {
             let js = serde_json::to_string(&case).expect("case serialises");
-            match guarded(self.check, &case) {
+            // enumerated cases are published to the watchdog like watched random ones: a change that makes
+            // the code under test loop on one of them is reported after the case budget, not after the
+            // worker budget (found by the mutation campaign: `next_i0 = i0` in all_smems)
+            watch_begin(js.clone());
+            let verdict = guarded(self.check, &case);
+            watch_end();
+            match verdict {
                 Ok(pass) => col.record_pass(&pass, &js),
                 Err(Stop::Skip(sig)) => col.record_skip(sig),
                 Err(Stop::Fail(msg)) => {
